@@ -84,9 +84,9 @@ def case_layer(ctx, inp):
             return [Sym("d")] + [[to_sexp(k), sx(v)] for k, v in o.items()]
         return to_sexp(o)
     impl = [[to_sexp(k), sx(v)] for k, v in dict(new).items()]
-    model = ctx.lean(Sym("clone_legacy"), [to_sexp(k) for k in keys], rho, bsex, [Sym("fn"), 99],
+    model = ctx.lean(Sym("clone_legacy_layer"), [to_sexp(k) for k in keys], rho, bsex, [Sym("fn"), 99],
                      [[to_sexp(k), to_sexp(v)] for k, v in dsk.items()])
-    ctx.eq("Layer.clone (legacy values)", model, impl)
+    ctx.eq("Layer.clone (legacy values): (layer, bound)", model, [impl, bool(bound)])
     if bound:
         ctx.branch("legacy-bound")
     if len(keys) < len(allkeys):
@@ -101,9 +101,9 @@ def case_layer(ctx, inp):
             return [Sym("task"), [Sym("bindfirst")], [node_sexp(a) for a in n.args], []]
         return node_sexp(n)
     impl2 = [[to_sexp(k), nsx(v)] for k, v in dict(new2).items()]
-    model2 = ctx.lean(Sym("clone_spec"), [to_sexp(k) for k in keys], rho, bsex,
+    model2 = ctx.lean(Sym("clone_spec_layer"), [to_sexp(k) for k in keys], rho, bsex,
                       [[to_sexp(k), node_sexp(v)] for k, v in spec.items()])
-    ctx.eq("Layer.clone (task-spec nodes)", model2, impl2)
+    ctx.eq("Layer.clone (task-spec nodes): (layer, bound)", model2, [impl2, bool(bound2)])
     if bound2:
         ctx.branch("spec-bound")
     # property: with all keys cloned, the clone computes the same values under the regenerated keys
